@@ -541,6 +541,11 @@ def init(table, reload=False):
     """
     if 'neutron' in table.properties and not reload:
         return
+    # The class defaults assigned below replace the delayed loader for the
+    # neutron attribute, so make sure the default table has been loaded
+    # before initializing a private table, otherwise it never will be.
+    if table is not default_table():
+        getattr(default_table()[1], 'neutron')
     table.properties.append('neutron')
     assert ('density' in table.properties and 'mass' in table.properties), \
         "Neutron table requires mass and density properties"
